@@ -5,6 +5,7 @@ Fuzzing with a semantic oracle: every public parse entry point is fed truncation
 and splices of valid encodings of the same class, plus unstructured bytes; the call must return or raise one
 of NotEnoughData / TooMuchData / InvalidValue / InvalidType.
 """
+import os
 import random
 import time
 
@@ -145,6 +146,9 @@ def run(ctx):
     budget_s = 100 if ctx.quick else 1500
     jobs = [(index, ctx.derive_seed('shard', index), per_target, budget_s) for index in range(N_SHARDS)]
     stats = pool.run_shards(_shard, jobs)
+    if not ctx.quick:
+        from vf.fuzz import campaign  # pylint: disable=import-outside-toplevel
+        campaign.run(ID, ctx.derive_seed, stats, runs=int(os.environ.get('VERIF_ATHERIS_RUNS', '300000')))
     stats.extra['targets_total'] = len(targets.all_targets())
     stats.extra['classes_discovered'] = len(lib.all_classes())
     stats.extra['classes_excluded_abstract_in_practice'] = dict(lib.ABSTRACT_IN_PRACTICE)
